@@ -3085,9 +3085,11 @@ func (r *stack) implode(start, max int, spat []int) (tpat []int) {
 }
 
 func (r *stack) canPushNester(x any) (can bool) {
-	_, can = stackTypeAliasConverter(x)
-	if !r.positive(nnest) {
-		can = true
+	can = true
+	if r.positive(nnest) {
+		// no-nesting: everything but Stack/Stack alias
+		_, isStack := stackTypeAliasConverter(x)
+		can = !isStack
 	}
 	return
 }
